@@ -92,6 +92,8 @@ type decl struct {
 	Type  string `json:"type"`
 	Array bool   `json:"array"`
 	Req   bool   `json:"req"`
+	// Joined: an array query parameter declared `explode: false` (its items may travel comma-joined in one pair)
+	Joined bool `json:"-"`
 }
 
 func (d decl) key() string { return d.In + ":" + d.Name }
